@@ -41,6 +41,10 @@ C = {
     'symbolic execution of rustc MIR of the comparison arm with 64-bit bit-vector / IEEE double cells and symbolic constants; z3 against 65-bit and IEEE relations',
     'All operator x constant x field-value triples at once (cells and constants are solver variables over the full i64/u64/f64 ranges); exact for same-kind comparisons and in-range casts, sound across kinds.',
     'parse::<i64> exact model on bounded strings; parse::<f64>/number to_string uninterpreted; Rust `as` = saturating'),
+ 'C10': ('model_checking', '3/C10',
+    'symbolic execution of rustc MIR of Object::find (default method + closures) on symbolic keys (totality) and on enumerated keys over a symbolic object graph, compared by z3 with a reference resolver; nested vs dotted rules on real solver MIR',
+    'No panic for any key within the byte bound; for every enumerated path up to depth D (with indices and malformed shapes) and every object graph within the bounds the returned value is exactly the addressed one or none; nested mapping == dotted key when intermediates are objects.',
+    'Object::get on user objects = exact key lookup; Array::iter in order; usize::from_str exact'),
  'C12': ('other', '3/C12',
     'z3 equivalence of all optimiser outputs of one (rule, switches) on real solver MIR; write guard on every explored path (purity); repeated native optimise() calls for the printed form (concrete)',
     'Order independence and purity are decided over all documents / all explored paths; "prints the same" is decided by repeated concrete runs (labelled); thread schedules are not explored.',
